@@ -120,6 +120,14 @@ impl BlockDecoder {
             section.compressed_size
         );
 
+        // A block must not regenerate more than MAX_BLOCK_SIZE bytes and all literals end up in the output
+        if section.regenerated_size > MAX_BLOCK_SIZE {
+            return Err(DecompressBlockError::LiteralsTooLarge {
+                regenerated_size: section.regenerated_size,
+                max: MAX_BLOCK_SIZE,
+            });
+        }
+
         let upper_limit_for_literals = match section.compressed_size {
             Some(x) => x as usize,
             None => match section.ls_type {
